@@ -32,6 +32,7 @@ struct scen {
         unsigned char val[2][MAXDS];     /* the values held before READ */
         unsigned char junk[2][MAXDS];    /* what the variables are overwritten with before WRITE */
         unsigned char ds[2];             /* data_size of buffer-typed variables when DSx == 0 */
+        unsigned char cap;               /* command-buffer capacity 6..CAP: "every capacity that can hold the text" and the ones that cannot */
 };
 #define SCEN_DEFINED
 #include "common.h"
@@ -68,6 +69,7 @@ static void scen_run(void)
         const int types[2] = { T0, T1 };
         uint8_t *store[2] = { G_v0.b, G_v1.b };
 
+        ASSUME(S.cap >= 6 && S.cap <= CAP);
         ds[0] = DS0 ? DS0 : S.ds[0];
         ds[1] = DS1 ? DS1 : S.ds[1];
         for (v = 0; v < NV; v++) {
@@ -98,7 +100,7 @@ static void scen_run(void)
         W.grp.cmd = &W.cmd; W.grp.cmd_num = 1;
         W.grps[0] = &W.grp;
         W.desc.cmd_group = W.grps; W.desc.cmd_group_num = 1;
-        W.desc.buf = G_buf; W.desc.buf_size = CAP;
+        W.desc.buf = G_buf; W.desc.buf_size = S.cap;
         W.desc.unsolicited_buf = W.ubuf;
         W.desc.unsolicited_buf_size = 2;
         cat_init(&W.at, &W.desc, &W.io, NULL);
@@ -111,18 +113,22 @@ static void scen_run(void)
         W.at.cmd = &W.cmd;
         W.at.cmd_type = CAT_CMD_TYPE_READ;
         start_processing_format_read_args(&W.at, CAT_FSM_TYPE_ATCMD);
+        /* with a small capacity every formatting step may legitimately end in ERROR; then there is no READ output to feed back */
+        if (W.at.state == CAT_STATE_FLUSH_IO_WRITE_WAIT && W.at.write_state_after == CAT_STATE_AFTER_FLUSH_RESET) { WITNESS(1, "does-not-fit"); return; }
         CHK(C07, W.at.state == CAT_STATE_FORMAT_READ_ARGS && W.at.var == &W.var[0] && W.at.index == 0, "formatting starts with the first variable");
         ASSUME(W.at.state == CAT_STATE_FORMAT_READ_ARGS && W.at.var == &W.var[0] && W.at.index == 0);
         W.at.var = &W.var[0]; W.at.index = 0;
         format_read_args(&W.at, CAT_FSM_TYPE_ATCMD);
 #if NV == 2
+        if (W.at.state == CAT_STATE_FLUSH_IO_WRITE_WAIT && W.at.write_state_after == CAT_STATE_AFTER_FLUSH_RESET) { WITNESS(1, "does-not-fit"); return; }
         CHK(C07, W.at.state == CAT_STATE_FORMAT_READ_ARGS && W.at.var == &W.var[1] && W.at.index == 1, "formatting continues with the second variable");
         ASSUME(W.at.state == CAT_STATE_FORMAT_READ_ARGS && W.at.var == &W.var[1] && W.at.index == 1);
         W.at.var = &W.var[1]; W.at.index = 1;
         format_read_args(&W.at, CAT_FSM_TYPE_ATCMD);
 #endif
+        if (W.at.state == CAT_STATE_FLUSH_IO_WRITE_WAIT && W.at.write_state_after == CAT_STATE_AFTER_FLUSH_RESET) { WITNESS(1, "does-not-fit"); return; }
         CHK(C07, W.at.state == CAT_STATE_FLUSH_IO_WRITE_WAIT && W.at.write_state_after == CAT_STATE_AFTER_FLUSH_OK,
-            "the READ response is produced (buffer large enough)");
+            "the READ response is produced or refused with ERROR");
         ASSUME(W.at.state == CAT_STATE_FLUSH_IO_WRITE_WAIT && W.at.write_state_after == CAT_STATE_AFTER_FLUSH_OK);
         CHK(C07, G_buf[0] == '+' && G_buf[1] == 'V' && G_buf[2] == '=', "response starts with name=");
 
@@ -134,7 +140,7 @@ static void scen_run(void)
                         break;
                 n++;
         }
-        CHK(C07, n + off < CAP, "response is NUL-terminated inside the buffer");
+        CHK(C07, n + off < S.cap, "response is NUL-terminated inside the buffer");
         for (i = 0; i + off < CAP; i++)
                 G_buf[i] = (i < n) ? G_buf[i + off] : 0;
 
@@ -184,6 +190,7 @@ static void scen_run(void)
 static void scen_sample(void)
 {
         unsigned v, i;
+        S.cap = (unsigned char)(rnd(3) ? CAP : 6 + rnd(CAP - 5));
         rnd_bytes(&S.val[0][0], sizeof(S.val));
         rnd_bytes(&S.junk[0][0], sizeof(S.junk));
         for (v = 0; v < 2; v++) {
